@@ -280,9 +280,18 @@ def impl_ubx(filt, ops, check_mutation=True):
                 seen.add(id(data))
                 held.append((data, bytes(data), cid, (cid.cls, cid.id)))
     outs = []
+    other = UbxParser(UbxCID(*CRC_CID))          # a second live parser: objects must not share state
+    other.set_filters([UbxCID(6, 1)])
+    n_op = 0
     for o in ops:
+        n_op += 1
         if o[0] == 'P':
-            p.process(o[1])
+            # the API takes any bytes-like / iterable of ints: alternate the container type
+            data = o[1]
+            kind = (len(data) + n_op) % 3
+            p.process(bytes(data) if kind == 0 else bytearray(data) if kind == 1 else list(data))
+            if n_op % 2:
+                other.process(b'\xb5\x62\x06\x01\x02\x00\xaa')
         elif o[0] == 'F':
             p.set_filter(UbxCID(*o[1]))
         elif o[0] == 'FS':
@@ -312,9 +321,13 @@ def ubx_cmd(filt, ops):
 def impl_nmea(ops):
     from ubxlib.parser_nmea import NmeaParser
     p = NmeaParser()
+    other = NmeaParser()
+    k = 0
     for o in ops:
+        k += 1
         if o[0] == 'P':
-            p.process(o[1])
+            p.process(bytes(o[1]) if k % 2 else bytearray(o[1]))
+            other.process(b'$GP*')
         else:
             p.restart()
     return f'rx={p.frames_rx}'
